@@ -5,7 +5,7 @@
 -/
 import RosuModel.Model.Curve
 import RosuModel.Lemmas.Outcome
-import RosuModel.Lemmas.ToyScalar
+import RosuModel.Lemmas.ToyInt
 namespace Rosu.C19
 open Rosu Rosu.Curve
 
